@@ -3,6 +3,7 @@
 package p2p
 
 import (
+	"errors"
 	"context"
 	"io"
 
@@ -174,3 +175,50 @@ func zzH_C18_envelope_ban(t *zzT) {
 //zz:quick B=2
 //zz:thorough B=4
 func zzH_C09_p2p_envelope(t *zzT) { zzH_C18_envelope_ban(t) }
+
+// C17 "every request ends with … the response the remote handler produced for that very request", the
+// RESPONDER side: a sequence of 2..3 requests served by one node, each by a handler that either answers with
+// data or with an error (symbolic choice per request, symbolic payloads). The response message written back for
+// request i carries request i's ID, exactly the data / error its own handler call produced, and nothing left over
+// from an earlier request. (seed C17-9 recycled response writers through a sync.Pool without clearing the error.)
+//
+//zz:opt loop=4000
+//zz:stub time.Now zzStubNow
+//zz:stub github.com/google/uuid.New zzStubUUID
+//zz:stub github.com/libp2p/go-libp2p/core/network.WithUseTransient zzStubWithUseTransient
+func zzH_C17_responder_answers_own_request(t *zzT) {
+	p, _ := zzNewPeer()
+	h := p.host.(*zzHost)
+	if t.Symbolic() {
+		zzClockSec = 1_700_000_000
+	}
+	mp := newMessageProtocol([]byte{1, 2, 3, 4}, "1.0")
+	mp.RegisterRPCHandler("k", func(w ResponseWriter, req *Request) {
+		if len(req.Data) > 0 && req.Data[0]&1 == 1 {
+			w.Error(errors.New("refused"))
+			return
+		}
+		w.Write(append([]byte{0xd0}, req.Data...))
+	})
+	mp.start(zzCtx{done: make(chan struct{})}, zzNopLogger{}, p)
+	n := t.Range("requests", 2, 3)
+	bare, _ := zzAddrs(0)
+	for i := 0; i < n; i++ {
+		data := []byte{t.U8(t.Name("payload", i))}
+		id := string([]byte{'r', byte('0' + i)})
+		in := (&Request{ID: id, Procedure: "k", Data: data}).Encode()
+		mp.onRequest(zzCtx{done: make(chan struct{})}, &zzStream{in: in, conn: &zzConn{id: zzPeerID(0), addr: bare}})
+		t.Assert(len(h.streams) == i+1 && h.streams[i].written == 1, "every request is answered once on a new stream")
+		if len(h.streams) != i+1 {
+			return
+		}
+		res := &responseMsg{}
+		t.Assert(res.Decode(h.streams[i].out) == nil && res.ID == id && res.Procedure == "k", "the response carries the ID and procedure of the request it answers")
+		if data[0]&1 == 1 {
+			t.Assert(res.Error == "refused" && len(res.Data) == 0, "a refused request is answered with its handler's error and no data")
+		} else {
+			t.Assert(res.Error == "" && len(res.Data) == 2 && res.Data[0] == 0xd0 && res.Data[1] == data[0], "a served request is answered with exactly the data its handler produced and no error")
+		}
+	}
+	t.Reach("end")
+}
